@@ -64,3 +64,11 @@ Fixpoint ew_write_all_eager (w : wstate) (chunks : list (list byte)) : wstate * 
   | p :: r => let '(w', ok) := ew_write_eager w p in
               if ok then ew_write_all_eager w' r else (w', false)
   end.
+
+(* value.Deserialize(codec.NewDecodingReader(stream, scope)) for a flat value, where the stream
+   holds [delivered] (possibly fewer bytes than the declared scope) *)
+From Ztyp Require Import Codec.
+Definition flat_decode_scoped (t : ty) (c : ctree) (delivered : list byte) (scope : N)
+  : res (val * ctree) :=
+  let '(st, d) := new_reader delivered scope in
+  do r <- flat_dec t c st d; let '(v, c', _, _) := r in OK (v, c').
